@@ -1836,6 +1836,86 @@ def replay_function_args(a):
     return a.replay_cases(exe, data, cases, prefix=prefix)
 
 
+def substring_offsets(a):
+    """C18 (`substring(s,i,j) is characters i..j ... strings for which the offsets are out of range are skipped`): how SubstringFunction::call
+    turns the two integer arguments into the offsets handed to substring(). For arbitrary i64 arguments i, j: a non-negative argument is
+    handed on unchanged; a negative one becomes an offset no string can have (> isize::MAX), so that every string is skipped. (Float
+    arguments: float-to-int casts are not modelled - outside the claim.)"""
+    import miragg
+    PV = enum_variants(a.src, "rules/path_value.rs", "PathAwareValue")
+    QR = enum_variants(a.src, "rules/mod.rs", "QueryResult")
+    ns = []
+
+    def m_first(ex, av):
+        el = ex.opq()
+        ex.proj[("disc", el[1])] = str(QR.index("Resolved"))
+        pv = ex.opq()
+        ex.proj[(el[1], "as Resolved.0")] = pv
+        ex.proj[("disc", pv[1])] = str(PV.index("Int"))
+        tup = ex.opq()
+        ex.proj[(pv[1], "as Int.0")] = tup
+        n = ex.fresh_int("i64", "idx")
+        ex.proj[(tup[1], ".1")] = n
+        ns.append((str(av[0]) if av else "", n))
+        return ("enum", "Option", "1", {"Some": el})
+    def m_try_from(ex, av):
+        # usize::try_from(i64): Ok(n) iff 0 <= n (std contract; usize is 64 bits here)
+        n = av[0]
+        if not av or n[0] != "int":
+            return ex.fresh_result(ex.havoc("usize"), "tf")
+        t = ex.fresh("Int", "tf")
+        ex.side.append(f"(= {t} (ite (>= {n[1]} 0) 0 1))")
+        return ("enum", "Result", t, {"Ok": ("int", n[1]), "Err": ("int", ex.fresh("Int", "err"))})
+
+    def m_unwrap_or(ex, av):
+        r_, dflt = av[0], av[1]
+        if r_[0] != "enum" or dflt[0] != "int" or r_[3].get("Ok", ("x",))[0] != "int":
+            return ex.havoc("usize")
+        out = ex.fresh_int("usize", "uo")
+        ex.side.append(f"(= {out[1]} (ite (= {r_[2]} 0) {r_[3]['Ok'][1]} {dflt[1]}))")
+        return out
+    ex = a.exec(miragg.Agg.CALLABLE_IMPL, {"first": m_first, "substring": m_result_opq, "from": mirexec.m_identity, "deref": mirexec.m_identity,
+                                         "try_from": m_try_from, "unwrap_or": m_unwrap_or},
+                log=("index",), first_arg_re=r"_1: &(?:eval_context::)?SubstringFunction,", unroll=1, max_paths=4000, deepen=False)
+    a.fns.append("rules::eval_context::<SubstringFunction as Callable>::call (offsets)")
+    bad, ncall = [], 0
+    MAXI = 9223372036854775807
+    for p in ex.paths:
+        subs = calls(p, "substring")
+        if not subs:
+            continue
+        ncall += 1
+        e = subs[0]
+        if len(e[2]) != 3 or e[2][1][0] != "int" or e[2][2][0] != "int" or len(ns) < 2:
+            bad.append(pc_term(p.pc))
+            continue
+        terms = []
+        for off, (_src, n) in zip((e[2][1][1], e[2][2][1]), ns[-2:]):
+            terms.append(f"(ite (>= {n[1]} 0) (= {off} {n[1]}) (> {off} {MAXI}))")
+        bad.append(f"(and {pc_term(p.pc)} (not (and {' '.join(terms)})))")
+    c = a.discharge("functions/substring/offsets-are-the-arguments", ex, bad,
+                    f"SubstringFunction::call with two integer arguments i, j (any i64; {ncall} calling paths): substring() is handed exactly i and j when they "
+                    "are non-negative and an offset above isize::MAX (out of range for every string) for a negative one - never a wrapped-around small number")
+    if c:
+        c["replay"] = replay_substring_offsets(a)
+        c["reproduced"] = c["replay"].get("reproduced", False)
+        a.candidates.append(c)
+
+
+def replay_substring_offsets(a):
+    exe = a.cli()
+    if not exe:
+        return {"reproduced": False, "note": "native build failed"}
+    data = '{"s": "abcdef", "big": 65536, "neg": -65534}\n'
+    prefix = ("let ok = substring(s, 0, 2)\nlet w1 = substring(s, 65536, 65538)\nlet w2 = substring(s, 0, 65538)\nlet w3 = substring(s, -65536, 2)\n"
+              "let w4 = substring(s, big, 65538)\nlet w5 = substring(s, 131072, 131075)\nlet w6 = substring(s, 4294967296, 4294967298)\nlet w7 = substring(s, 1, -65533)\n")
+    cases = [("%ok == \"ab\"", "PASS"), ("%ok !empty", "PASS")]
+    # out-of-range offsets: the string is skipped, the variable holds nothing: `!empty` FAILs, `empty` PASSes
+    for v in ("w1", "w2", "w3", "w4", "w5", "w6", "w7"):
+        cases += [(f"%{v} empty", "PASS"), (f"%{v} !empty", "FAIL")]
+    return a.replay_cases(exe, data, cases, prefix=prefix)
+
+
 def join_sequence(a):
     """join(args, delimiter): what is appended to the result, in which order"""
     QR = enum_variants(a.src, "rules/mod.rs", "QueryResult")
@@ -2456,6 +2536,6 @@ SITES = {
     "C10": [binary_records],
     "C03": [flip_closure, negated_compare_wrapper, parser_clause_wiring, flip_listin, unary_empty_on_expr, flip_queryin, gac_comparator_pair],
     "C13": [flip_closure, operator_dispatch, binary_operation, match_value, common_operator, contained_in, eq_operation, in_operation, list_map_equality, value_partial_eq, flip_listin, flip_queryin],
-    "C18": [function_dispatch, elementwise, join_sequence, function_args],
+    "C18": [function_dispatch, elementwise, join_sequence, function_args, substring_offsets],
     "C15": [function_args, empty_on_expr_condition],
 }
